@@ -3,7 +3,7 @@ EXTENDS H_Fault, TLC, Json, IOUtils, Sequences
 TraceLog == ndJsonDeserialize(IOEnv.TRACE)
 VARIABLES l, ph, want
 \* ph: "down" | "up" (initialised, base snapshot pending) | "base" | "called" (snapshot pending) | "idle" | "settled"
-tvars == <<up, obs, created, must, l, ph, want>>
+tvars == <<up, obs, created, must, keep, l, ph, want>>
 Ev == TraceLog[l]
 More == l <= Len(TraceLog)
 Is(e) == More /\ Ev.e = e /\ l' = l + 1
@@ -11,7 +11,7 @@ SnapOf(r) == [nx |-> r.nx, s0 |-> r.s0, s1 |-> r.s1, s2 |-> r.s2, su |-> r.su, u
               pk |-> r.pk, pre |-> r.pre, mx |-> r.mx, prim |-> r.prim]
 TInit == HInit /\ l = 1 /\ ph = "down" /\ want = Zero
 TNext ==
-    \/ (Is("Reset") /\ up' = FALSE /\ obs' = Zero /\ created' = 0 /\ must' = FALSE /\ ph' = "down" /\ want' = Zero)
+    \/ (Is("Reset") /\ up' = FALSE /\ obs' = Zero /\ created' = 0 /\ must' = FALSE /\ keep' = 0 /\ ph' = "down" /\ want' = Zero)
     \/ (Is("FaultRun") /\ UNCHANGED <<hvars, ph, want>>)
     \* ABT_init: succeeds, or fails only because a request failed, leaving nothing behind and the runtime uninitialised
     \/ (Is("Init") /\ ph = "down" /\ Ev.ret = 0 /\ Ev.inited = 1 /\ InitOk /\ ph' = "up" /\ UNCHANGED want)
